@@ -152,6 +152,11 @@ def field_tables(prog, rep):
             v = deep(v, fi, stop=rowvars | set(pos))
             idxs = [n.slice.value for n in ast.walk(v) if isinstance(n, ast.Subscript) and isinstance(n.value, ast.Name) and n.value.id in rowvars and isinstance(n.slice, ast.Constant)]
             idxs += [pos[n.id] for n in ast.walk(v) if isinstance(n, ast.Name) and n.id in pos and isinstance(n.ctx, ast.Load)]
+            # row["name"] (a sqlite3.Row): the column of that name
+            idxs = [(cols.index(i_) if isinstance(i_, str) and i_ in cols else i_) for i_ in idxs]
+            if any(not isinstance(i_, int) or isinstance(i_, bool) for i_ in idxs):
+                rep.undecided("FIELDS", fi.short, f"key {getattr(k, 'value', '?')}", f"row item `{norm(v)[:60]}` is not a column position or a selected column's name", fi.loc())
+                continue
             if len(idxs) == 1 and idxs[0] < len(cols):
                 key_of_col[cols[idxs[0]]] = (k.value, norm(v))
         composite = {p: key_of_col.get(col, (None,))[0] for p, (col, _) in col_of_param.items()}
@@ -173,6 +178,16 @@ def field_tables(prog, rep):
     cr = [c for c in chains if c.fi.short == "PeeweeStorage.create_bucket" and c.op == "create"]
     js = prog.func("BucketModel.json")
     jr = [n for n in walk_own(js.node) if isinstance(n, ast.Return) and isinstance(n.value, ast.Dict)]
+    if len(jr) == 1:
+        # values held in locals of json() (created = ...; data = ... if ... else ...) are the expressions they stand for
+        from ..trace import deep as _deep
+
+        d_ = jr[0].value
+        nd = ast.Dict(keys=list(d_.keys), values=[_deep(v_, js) for v_ in d_.values])
+        ast.copy_location(nd, d_)
+        nr = ast.Return(value=nd)
+        ast.copy_location(nr, jr[0])
+        jr = [nr]
     if len(cr) == 1 and len(jr) == 1:
         field_of_param = {_strip_json(k.value): k.arg for k in cr[0].op_call.keywords}
         key_of_field = {}
